@@ -219,6 +219,39 @@ impl Scenario for C03 {
                 b.push(Step::Deliver { tok, node, key: vkey, purpose: None, faults: vec![], pk: Some(pk), fk: Some(fk), validator: VSpec::None, alias: false, now_ns: now, pair_with: None });
             }
         }
+        // tokens of an issuer that writes its time claims in local time (a numeric UTC offset of either
+        // sign, whole hours or not), read as RegisteredClaims and validated just before and just after each
+        // instant: the claims are the instants the text denotes
+        if b.rng.chance(1, 3) {
+            for _ in 0..3 {
+                let purpose = if b.rng.bool() && f != 1 { Purp::Public } else { Purp::Local };
+                let bk = nodes[0];
+                let base = b.now_ns;
+                let day = 86_400_000_000_000i128;
+                let (nbf, iat, exp) = (base - day + b.rng.below(3_600_000_000_000) as i128, base - day / 2, base + day + b.rng.below(3_600_000_000_000) as i128);
+                let mut members = Vec::new();
+                for (name, t) in [("nbf", nbf), ("iat", iat), ("exp", exp)] {
+                    if b.rng.chance(4, 5) {
+                        members.push(format!("\"{name}\":\"{}\"", crate::props::c11::rfc3339_with(&mut b, t, false)));
+                    }
+                }
+                members.push("\"iss\":\"https://issuer.example\"".into());
+                members.push("\"role\":\"admin\"".into());
+                let json = format!("{{{}}}", members.join(","));
+                let tok = b.tok_slot();
+                let nl = crate::world::nonce_len(f, purpose);
+                let nonce = edge_nonce(&mut b, nl);
+                let key = if purpose == Purp::Local { fk.local } else { fk.secret };
+                let vkey = if purpose == Purp::Local { fk.local } else { fk.public };
+                let aad = b.aad_for(bk);
+                b.push(Step::RefSeal { tok, family: f, key, purpose, payload: Bytes::hex(json.as_bytes()), footer: Bytes::empty(), aad, nonce: Bytes::hex(&nonce), suffix: String::new() });
+                for node in 0..nodes.len() {
+                    for at in [base, nbf - 1_000_000_000, nbf + 1_000_000_000, exp - 1_000_000_000, exp + 1_000_000_000, nbf - 1801 * 1_000_000_000, nbf + 1801 * 1_000_000_000, exp - 3601 * 1_000_000_000, exp + 3601 * 1_000_000_000] {
+                        b.push(Step::Deliver { tok, node, key: vkey, purpose: None, faults: vec![], pk: Some(crate::backend::PayloadKind::Reg), fk: Some(crate::backend::FootKind::Bytes), validator: VSpec::TimeAt(Ns(at)), alias: false, now_ns: Ns(at), pair_with: None });
+                    }
+                }
+            }
+        }
         b.finish()
     }
 }
